@@ -2,7 +2,7 @@
    the zero state is never removed, only states that are negligible in EVERY batch entry are removed,
    and when nothing is negligible the pruned result is the unpruned one. *)
 From Coq Require Import List ZArith Lia Bool Arith.
-From EPG Require Import Scalar State ListLemmas ShiftND.
+From EPG Require Import Scalar State ListLemmas ShiftND ShiftNDProofs.
 Import ListNotations.
 
 Section Prune.
@@ -160,6 +160,43 @@ Theorem relocate_fm_mirror (p : plan) (amps : list triple) (j : nat) : (j < leng
 Proof.
   intros Hj. unfold relocate. rewrite !nth_tab by lia. cbn [fm fp].
   replace (length (pk p) - 1 - (length (pk p) - 1 - j))%nat with j by lia. reflexivity.
+Qed.
+
+(* Z clause of the n-D shift: when the scatter list (target cell, Z amplitude) has distinct targets and is closed
+   under (cell j |-> mirror cell n2-1-j, value |-> conjugate) -- true for a well-formed input on an antisymmetric
+   sorted wavenumber table -- the relocated Z satisfies Z(-k) = conj Z(k).  The closure of the plan itself is
+   NOT proved here (it is what wfb_obs observes on the implementation). *)
+Hypothesis L : ScalLaws S.
+
+Theorem assign_mirror (ps : list (nat * S)) (n2 j : nat) :
+  NoDup (map fst ps) ->
+  (forall a v, In (a, v) ps -> (a < n2)%nat /\ In ((n2 - 1 - a)%nat, kconj v) ps) ->
+  (j < n2)%nat ->
+  assign_fn ps (n2 - 1 - j) = kconj (assign_fn ps j).
+Proof.
+  intros Hnd Hcl Hj.
+  destruct (in_dec Nat.eq_dec j (map fst ps)) as [Hin|Hnin].
+  - apply in_map_iff in Hin. destruct Hin as [[a v] [Ha Hin]]. simpl in Ha. subst a.
+    rewrite (assign_at S ps j v Hnd Hin).
+    apply (assign_at S ps _ _ Hnd). apply (Hcl j v Hin).
+  - rewrite (assign_none S ps j Hnin).
+    rewrite (assign_none S ps (n2 - 1 - j)).
+    + symmetry. apply (conj_0 S L).
+    + intros Hin. apply Hnin. apply in_map_iff in Hin. destruct Hin as [[a v] [Ha Hin]]. simpl in Ha.
+      destruct (Hcl a v Hin) as [_ Hm]. subst a.
+      replace (n2 - 1 - (n2 - 1 - j))%nat with j in Hm by lia.
+      now apply (in_map fst) in Hm.
+Qed.
+
+Theorem relocate_fz_mirror (p : plan) (amps : list triple) (j : nat) :
+  let ps := opairs (pL p) (map (@fz S) amps) in
+  NoDup (map fst ps) ->
+  (forall a v, In (a, v) ps -> (a < length (pk p))%nat /\ In ((length (pk p) - 1 - a)%nat, kconj v) ps) ->
+  (j < length (pk p))%nat ->
+  fz (nth (length (pk p) - 1 - j) (relocate p amps) t0) = kconj (fz (nth j (relocate p amps) t0)).
+Proof.
+  intros ps Hnd Hcl Hj. unfold relocate. rewrite !nth_tab by lia. cbn [fz].
+  now apply assign_mirror.
 Qed.
 
 End Prune.
